@@ -24,12 +24,12 @@ MODULE = "mc.checks.c01"
 
 def bounds(tier, seed):
     return {"bases": projects.BASE_NAMES, "git": [False, True], "defects": projects.DEFECTS,
-            "max_defects": 3 if tier == "quick" else 4,
+            "max_defects": 3 if tier == "quick" else 5,
             "seed_slice": f"all 4-defect sets on base {projects.BASE_NAMES[seed % len(projects.BASES)]} (no git)" if tier == "quick" else None}
 
 
 def cases(tier, seed):
-    n = 3 if tier == "quick" else 4
+    n = 3 if tier == "quick" else 5
     for b in range(len(projects.BASES)):
         for git in (False, True):
             for ds in projects.defect_sets(n):
